@@ -105,6 +105,32 @@ class Ctx(object):
                 self.report(case, wcase, res, why, phase=name)
         return r
 
+    def build_l2(self):
+        if "l2" not in self._built:
+            self._built["l2"] = akbuild.build_l2("opt", quiet=False)
+        return self._built["l2"]
+
+    def l2_phase(self, name, module, consts, handler, sample_cases=None, max_cases=None, **kw):
+        """TLC exploration as in tlc_phase, but the cases are executed against the repository's Python layer (L2)"""
+        import l2replay
+        r = self.tlc_phase(name, module, consts, replay_cases=False, **kw)
+        if r is None or not r.ncases:
+            return r
+        built = self.build_l2()
+        stats, fails = l2replay.replay_l2(built["l2_path"], r.cases_path, handler, seed=self.seed,
+                                          sample_cases=sample_cases, max_cases=max_cases)
+        ph = self.phases[-1]
+        ph["replayed_l2"] = stats["n"]
+        ph["replay_ok"] = stats["ok"]
+        ph["unspecified_skipped"] = stats.get("unspec", 0)
+        ph["expected_errors"] = stats.get("err_expected", 0)
+        ph["numpy_cross_checked"] = stats.get("numpy_checked", 0)
+        self.replayed += stats["n"]
+        self._take_samples(r.cases_path)
+        for idx, case, wcase, res, why in fails:
+            self.report(case, wcase, res, why, phase=name)
+        return r
+
     def _take_samples(self, path, k=2):
         if len(self.samples) >= 6:
             return
